@@ -900,20 +900,20 @@ def check(ctx):
         ctx.disagree("catalogue", miss, "every public entry point has an entry", "no entry for " + ", ".join(miss),
                      "a new entry point with random_state= is not covered by the C15 catalogue")
     # (a)(b)(c)
-    check_entries(ctx, n_cases=ctx.budget(3, 40), n_fresh=ctx.budget(1, 6))
+    check_entries(ctx, n_cases=ctx.budget(3, 100), n_fresh=ctx.budget(1, 10))
     phase("entries (a)(b)(c)")
     # (d) forest
     r = ctx.fork("parallel")
-    fcases = [forest_case(r) for _ in range(ctx.budget(8, 200))]
+    fcases = [forest_case(r) for _ in range(ctx.budget(8, 500))]
     for c in fcases:
         check_forest_njobs(ctx, c)
     phase("forest n_jobs (d)")
     # (e) discipline + subsets
     lean_lines, lean_expect = [], []
-    for i, c in enumerate(fcases[:ctx.budget(8, 100)]):
+    for i, c in enumerate(fcases[:ctx.budget(8, 250)]):
         check_discipline(ctx, c, N_JOBS[i % 4], lean_lines, lean_expect)
     phase("forest discipline (e)")
-    check_subset_sweep(ctx, ctx.budget(200, 6000), lean_lines, lean_expect)
+    check_subset_sweep(ctx, ctx.budget(200, 10000), lean_lines, lean_expect)
     outs = leanio.run_driver("Schedule", lean_lines)
     for (unit, inp), impl, out in zip((e[0] for e in lean_expect), (e[1] for e in lean_expect), outs):
         model = [int(x) for x in out.split()] if out != "bad-op" and out else []
@@ -932,7 +932,7 @@ def check(ctx):
             ctx.disagree("schedule.toy", "sched", line, "owned: equal, shared: different")
     phase("subset sweep + Lean driver")
     # (d) logistic regression (process workers)
-    lcases = [logreg_case(r) for _ in range(ctx.budget(4, 40))]
+    lcases = [logreg_case(r) for _ in range(ctx.budget(4, 80))]
     check_logreg(ctx, lcases)
     check_logreg_repeat(ctx, logreg_case(r, many=True), reps=ctx.budget(3, 8))
     phase("logistic regression n_jobs (d)")
